@@ -22,6 +22,7 @@ PARAMS = {}
 TWIN = False          # reachability twin (worker.py replaces the post-condition by False)
 CONCRETE = False      # set by replay.py: running without CrossHair
 REGISTRY = {}
+GIVE_UPS = []         # paths on which the harness could not observe / model something (see give_up, Duck)
 
 
 def P(name, default=None):
@@ -163,6 +164,7 @@ class Duck:
             except ImportError:
                 IgnoreAttempt = None
             if IgnoreAttempt is not None:
+                GIVE_UPS.append('duck %s does not model .%s' % (type(self).__name__, name))
                 raise IgnoreAttempt('duck %s does not model .%s' % (type(self).__name__, name))
         raise HarnessLimit('duck %s does not model .%s' % (type(self).__name__, name))
 
@@ -187,3 +189,16 @@ class untraced:
         if self.cm is not None:
             self.cm.__exit__(*a)
         return False
+
+
+def give_up(msg):
+    """the harness cannot observe what it needs on this path (e.g. a recorder was never called because the
+    code was reorganised): make the path inconclusive instead of reporting a violation"""
+    if not CONCRETE:
+        try:
+            from crosshair.util import IgnoreAttempt
+            GIVE_UPS.append(msg)
+            raise IgnoreAttempt(msg)
+        except ImportError:
+            pass
+    raise HarnessLimit(msg)
